@@ -45,3 +45,18 @@ Theorem C03_sibling_order_is_name_then_constraint :
   /\ (forall a b c d : bytes, kcmp (a, Some c) (b, Some d) = match bcmp a b with Eq => bcmp c d | o => o end).
 Proof. split; [exact sibling_order_shape|]. split; [exact kcmp_unconstrained|exact kcmp_constrained]. Qed.
 Print Assumptions C03_sibling_order_is_name_then_constraint.
+
+(* ---- which of two successful candidates is kept, REGENERATED from src/node/search.rs on this run (Gen/Rankings.v): the
+        closure of every `best_match.map_or(..)`, read over the model's route infos, is `better` of the documented walk -
+        for every pair of infos -, the same in all six loops, and `best_match` is used nowhere else ---- *)
+From WF Require Import Gen.Rankings Proofs.RankingsP.
+Theorem C03_regenerated_ranking_is_the_documented_priority :
+  (forall x, In x gen_rankings ->
+     forall a best, sem_rank x a best = match best with None => true | Some b => better a b end)
+  /\ map (fun x : bytes * bool * rarm * rarm * rarm => fst (fst (fst (fst x)))) gen_rankings = map w six_loops
+  /\ gen_best_match_uses = length gen_rankings /\ gen_best_match_assignments = length gen_rankings.
+Proof.
+  split; [exact regenerated_rankings_are_better|].
+  split; [exact (proj1 rankings_table)|exact (proj2 (proj2 rankings_table))].
+Qed.
+Print Assumptions C03_regenerated_ranking_is_the_documented_priority.
